@@ -51,6 +51,77 @@ def random_sequence(rng, chk, variant, n, contends):
     return ops
 
 
+def multi_exhaustive(depth, nobj=2):
+    """every legal sequence of lock K / try K / unlock K / tother K over `nobj` objects up to `depth` ops
+    (main thread: lock only on a free object, unlock only what it holds; `tother` = a second thread's trylock)"""
+    def rec(prefix, held):
+        if prefix and (held or not prefix[-1].startswith("unlock")):      # (a closed sequence is also the closure of its prefix)
+            yield prefix + ["unlock %d" % k for k in sorted(held)]
+        if len(prefix) == depth:
+            return
+        for k in range(nobj):
+            for op in (["try", "unlock", "tother"] if k in held else ["lock", "try", "tother"]):
+                h = set(held)
+                if op == "unlock":
+                    h.discard(k)
+                elif op != "tother":
+                    h.add(k)
+                yield from rec(prefix + ["%s %d" % (op, k)], h)
+    seen = set()
+    for seq in rec([], set()):
+        if tuple(seq) not in seen:
+            seen.add(tuple(seq))
+            yield seq
+
+
+def multi_random(rng, chk, n, budget):
+    """longer sequences over all four objects, with NULL arguments, second-thread trylocks and (budgeted)
+    three-thread contention"""
+    ops, held = [], set()
+    for _ in range(n):
+        r = rng.random()
+        if r < 0.06:
+            op = rng.choice(["lock", "try", "unlock"])
+            ops.append(op + " -1")
+            chk.bump("null-" + op)
+            continue
+        k = rng.randrange(4)
+        if r < 0.25:
+            ops.append("tother %d" % k)
+            chk.bump("tother-" + ("held" if k in held else "free"))
+            continue
+        if k in held:
+            if budget[0] > 0 and r < 0.32:
+                budget[0] -= 1
+                ops.append("contend2 %d" % k)      # main unlocks inside the op
+                held.discard(k)
+                chk.bump("contend2")
+                continue
+            op = "unlock" if rng.random() < 0.5 else "try"
+        else:
+            op = rng.choice(["lock", "try"])
+        chk.bump("multi:%s-%s-others%d" % (op, "held" if k in held else "free", min(len(held - {k}), 2)))
+        ops.append("%s %d" % (op, k))
+        if op == "unlock":
+            held.discard(k)
+        else:
+            held.add(k)
+    ops += ["unlock %d" % k for k in sorted(held)]
+    return ops
+
+
+MULTI_PROBES = [
+    # a held object must not make another object look held, to the same or to another thread
+    ["lock 0", "try 1", "tother 2", "tother 0", "lock 3", "unlock 0", "tother 0", "try 0", "unlock 1", "unlock 3", "unlock 0"],
+    ["try 2", "tother 2", "lock 1", "tother 1", "unlock 2", "tother 2", "unlock 1", "tother 1"],
+    # three threads: two wait in lock while main holds, then take it in turn
+    ["lock 1", "contend2 1", "try 1", "tother 1", "unlock 1", "tother 1"],
+    ["try 0", "lock 2", "contend2 0", "tother 2", "contend2 2", "lock 0", "unlock 0"],
+    # NULL is a legal argument of every function
+    ["lock -1", "try -1", "unlock -1", "lock 0", "unlock -1", "try 0", "unlock 0"],
+]
+
+
 def script_exhaustive():
     for c0 in CODES:
         for (o1, c1), (o2, c2) in itertools.product(itertools.product(["lock", "try", "unlock"], CODES), repeat=2):
@@ -123,8 +194,12 @@ def run(chk):
             probes = [["lock", "contend", "try", "unlock"], ["try", "contend", "lock", "unlock"]]
             contends = [8 if thorough else 2]
             rnd = [random_sequence(rng, chk, v, rng.choice([5, 20, 60]), contends) for _ in range(1500 if thorough else 200)]
+            mex = list(multi_exhaustive(5 if thorough else 4))
+            nseq += len(mex)
+            budget = [6 if thorough else 2]
+            mrnd = [multi_random(rng, chk, rng.choice([8, 25, 60]), budget) for _ in range(600 if thorough else 120)]
             cases = ac.corpus_for("C01", v)
-            f, c, t = diffrun.campaign(chk, fams[v], cases + probes + ex + rnd, proof_ok, detail, None, "C01 variant=" + v, batch=400)
+            f, c, t = diffrun.campaign(chk, fams[v], cases + probes + MULTI_PROBES + ex + mex + rnd + mrnd, proof_ok, detail, None, "C01 variant=" + v, batch=400)
             found, corr, thm = found or f, corr or c, thm or t
         if "posix-script" in fams:
             sx = list(script_exhaustive())
